@@ -161,14 +161,16 @@ Ltac inv_bind H :=
 (* ------------------------------------------------------------------ validators *)
 Lemma validate_ndinfo_len v n l : validate_ndinfo v n = Ok l -> length l = n.
 Proof.
-  destruct v as [q|l0]; cbn; intros H.
+  destruct v as [q|l0| | | | |k|ll]; cbn [validate_ndinfo]; intros H; try discriminate.
   - injection H as <-. apply repeat_length.
   - destruct (length l0 =? n) eqn:E; [|discriminate]. injection H as <-. apply Nat.eqb_eq. exact E.
+  - destruct (rectangular ll); [|discriminate].
+    destruct (length (concat ll) =? n) eqn:E; [|discriminate]. injection H as <-. apply Nat.eqb_eq. exact E.
 Qed.
 
 Lemma validate_units_len v n l : validate_units v n = Ok l -> length l = n.
 Proof.
-  destruct v as [q|l0]; cbn; intros H.
+  destruct v as [q|l0|]; cbn [validate_units]; intros H; try discriminate.
   - injection H as <-. apply repeat_length.
   - destruct (length l0 =? n) eqn:E; [|discriminate]. injection H as <-. apply Nat.eqb_eq. exact E.
 Qed.
